@@ -534,6 +534,17 @@ def indirect_via(fn, callnode):
     if f is not None and f["k"] == "member":
         return (f.get("rec"), f["f"])
     if f is not None and f["k"] == "var":
+        # a local that only holds the pointer read from a field (`fn_t *const cb = task->fn; cb(...)`) stands for that field
+        a = fn.aliases().get(f["n"]) if f.get("sc") == "local" else None
+        for _ in range(3):
+            while a is not None and a["k"] == "cast":
+                a = fn.d(a["a"][0])
+            if a is not None and a["k"] == "member":
+                return (a.get("rec"), a["f"])
+            if a is not None and a["k"] == "var" and a.get("sc") == "local":
+                a = fn.aliases().get(a["n"])
+            else:
+                break
         return ("<var>", f["n"])
     return None
 
